@@ -57,6 +57,10 @@ type SelftestCase struct {
 	Old     string `json:"old"`     // exact text to replace
 	New     string `json:"new"`
 	Expect  string `json:"expect"`  // obligation name (prefix) that must not be discharged
+	More    []struct {
+		Old string `json:"old"`
+		New string `json:"new"`
+	} `json:"more"` // further replacements in the same file
 }
 
 type Finding struct {
@@ -548,6 +552,17 @@ func runSelftest(spec *CheckSpec) int {
 			continue
 		}
 		mutated := strings.Replace(string(data), tc.Old, tc.New, 1)
+		missing := false
+		for _, m := range tc.More {
+			if !strings.Contains(mutated, m.Old) {
+				missing = true
+			}
+			mutated = strings.Replace(mutated, m.Old, m.New, 1)
+		}
+		if missing {
+			fmt.Printf("ENGINE-SELFTEST-SKIPPED %s: anchor text not present in %s (code changed)\n", tc.Name, tc.File)
+			continue
+		}
 		rr, err := executeSpec(spec, "quick", map[string][]byte{file: []byte(mutated)})
 		if err != nil {
 			fmt.Println("ENGINE-SELFTEST-FAILED", tc.Name, err)
